@@ -209,3 +209,66 @@ pub fn event(e: &str, body: serde_json::Value) -> String {
         format!("{{\"e\":\"{}\",{}", e, &s[1..])
     }
 }
+
+/// Runs `f` in a forked child with an address-space and CPU limit and returns
+/// what it wrote, or how the child died.  For calls that may run away (a
+/// decoder fed data it misreads can loop and allocate without bound).  Only
+/// to be used from a single-threaded part of the harness.
+pub fn isolated(mem_bytes: u64, cpu_secs: u64, f: impl FnOnce() -> Vec<u8>) -> Result<Vec<u8>, String> {
+    unsafe {
+        let mut fds = [0i32; 2];
+        if libc::pipe(fds.as_mut_ptr()) != 0 {
+            return Err("pipe failed".into());
+        }
+        let pid = libc::fork();
+        if pid < 0 {
+            return Err("fork failed".into());
+        }
+        if pid == 0 {
+            libc::close(fds[0]);
+            let lim = libc::rlimit { rlim_cur: mem_bytes, rlim_max: mem_bytes };
+            libc::setrlimit(libc::RLIMIT_AS, &lim);
+            let lim = libc::rlimit { rlim_cur: cpu_secs, rlim_max: cpu_secs + 1 };
+            libc::setrlimit(libc::RLIMIT_CPU, &lim);
+            let r = catch_unwind(AssertUnwindSafe(f));
+            let (tag, body): (u8, Vec<u8>) = match r {
+                Ok(v) => (0, v),
+                Err(_) => (1, Vec::new()),
+            };
+            let mut buf = vec![tag];
+            buf.extend_from_slice(&body);
+            let mut off = 0;
+            while off < buf.len() {
+                let n = libc::write(fds[1], buf[off..].as_ptr() as *const libc::c_void, buf.len() - off);
+                if n <= 0 {
+                    break;
+                }
+                off += n as usize;
+            }
+            libc::_exit(0);
+        }
+        libc::close(fds[1]);
+        let mut out = Vec::new();
+        let mut chunk = [0u8; 65536];
+        loop {
+            let n = libc::read(fds[0], chunk.as_mut_ptr() as *mut libc::c_void, chunk.len());
+            if n <= 0 {
+                break;
+            }
+            out.extend_from_slice(&chunk[..n as usize]);
+        }
+        libc::close(fds[0]);
+        let mut status = 0i32;
+        libc::waitpid(pid, &mut status, 0);
+        if libc::WIFSIGNALED(status) {
+            return Err(format!("killed by signal {} (memory or CPU limit)", libc::WTERMSIG(status)));
+        }
+        if out.is_empty() {
+            return Err(format!("child exited with status {} and no result", libc::WEXITSTATUS(status)));
+        }
+        if out[0] == 1 {
+            return Err("panic".into());
+        }
+        Ok(out[1..].to_vec())
+    }
+}
